@@ -22,10 +22,10 @@ What is PROVED here (for the models; the tie to /repo is the correspondence of h
     permutation; collecting in completion order does.
 What the functional models CANNOT exhibit and is therefore only OBSERVED on the real code and
 compared with the model's prediction "nothing changes" (partial by nature): in-place mutation of the
-caller's objects, thread interleavings, pickling.  The three places where /repo's code is known to
-write into the caller's object are modelled as `Effect`s (`P12.effectOf`), the full-strength
-statement `args_preserved` is FALSE for them (`hampel_mutates_caller_witness`) and is proved as
-`args_preserved_partial` for every other site.
+caller's objects, thread interleavings, pickling.  How a call treats the caller's object is modelled
+as an `Effect`; the table of sites that do not copy (`P12.effectOf`) is EMPTY since the fix commits
+b0033b3 / c56874f / 6cfe0ff, so `args_preserved` holds at full strength for the model; the behaviour of the
+ORIGINAL code is kept, labelled as such, in `original_code_hampel_mutated_caller`.
 Only theorems + non-vacuity examples here.
 -/
 import SkVerif.Lemmas.C12
@@ -212,43 +212,36 @@ theorem completion_order_collection_depends_on_schedule :
 -- =============================================================================================
 -- the caller's object
 
-/- FULL-STRENGTH STATEMENT (false for /repo as it stands):
-     ∀ estimator method container arg result,
-       callerAfter (effectOf estimator method container) arg result = arg
-   It fails for HampelFilter.transform (Series and DataFrame), Imputer(method="random" | "drift" |
-   "forecaster").transform on a DataFrame and the statsmodels adapters' fit (ExponentialSmoothing,
-   ThetaForecaster, AutoETS) on a Series with an Int64Index. -/
+/-- FULL STRENGTH: for every estimator, method and container the caller's object after the call is the
+caller's object before the call (the table of in-place sites is empty since /repo commits b0033b3,
+c56874f, 6cfe0ff; what makes this true of the CODE is the harness's snapshot comparison on every call) -/
+theorem args_preserved {V : Type} (estimator method container : String) (arg : ArgSnap V) (result : V) :
+    callerAfter (effectOf estimator method container) arg result = arg := rfl
 
-/-- every site that is not in the table of known in-place sites leaves the caller's object alone -/
-theorem args_preserved_partial {V : Type} (estimator method container : String) (arg : ArgSnap V) (result : V)
-    (h : effectOf estimator method container = .copies) :
-    callerAfter (effectOf estimator method container) arg result = arg := by
-  rw [h]; rfl
-
-/-- NEGATION at a concrete witness: `HampelFilter(window_length=3, n_sigma=3, k=1).transform(z)` with
-z = (1, 90, 2, 3, 4) on labels 0..4 returns (1, NaN, 2, 3, 4) AND the caller's series is (1, NaN, 2, 3, 4)
-afterwards -/
-theorem hampel_mutates_caller_witness :
-    hampelInPlace ⟨3, 3, 1⟩ [(0, some 1), (1, some 90), (2, some 2), (3, some 3), (4, some 4)] =
-      .ok ([(0, some 1), (1, none), (2, some 2), (3, some 3), (4, some 4)],
-           [(0, some 1), (1, none), (2, some 2), (3, some 3), (4, some 4)]) ∧
-    effectOf "HampelFilter" "transform" "Series" = .returnsArgMutated ∧
-    callerAfter (effectOf "HampelFilter" "transform" "Series")
-        (⟨[some 1, some 90, some 2, some 3, some 4], [0, 1, 2, 3, 4], true⟩ : ArgSnap (List (Option Rat)))
-        [some 1, none, some 2, some 3, some 4]
-      ≠ ⟨[some 1, some 90, some 2, some 3, some 4], [0, 1, 2, 3, 4], true⟩ := by
-  refine ⟨by decide +kernel, by decide, by decide +kernel⟩
-
-/-- in the in-place sites the caller's data change exactly when the call changes a value: the
-caller's object afterwards IS the result -/
-theorem hampel_caller_after_is_result (cfg : ST.HampelCfg) (z r after : ST.Series)
-    (h : hampelInPlace cfg z = .ok (r, after)) : after = r := by
+/-- `HampelFilter.transform` on a Series: whatever the filter finds, the caller's series afterwards is
+the series passed in -/
+theorem hampel_caller_unchanged (cfg : ST.HampelCfg) (z r after : ST.Series)
+    (h : hampelInPlace cfg z = .ok (r, after)) : after = z := by
   unfold hampelInPlace at h
   cases hh : ST.hampel cfg z with
   | error e => rw [hh] at h; cases h
-  | ok x => rw [hh] at h; simp only [Except.map, Except.ok.injEq, Prod.mk.injEq] at h; rw [← h.1, ← h.2]
+  | ok x => rw [hh] at h; simp only [Except.map, Except.ok.injEq, Prod.mk.injEq] at h; exact h.2.symm
 
-/-- the adapters' index replacement keeps values and labels (only the index object changes) -/
+/-- HISTORICAL, about the ORIGINAL code (before fix b0033b3), not about /repo as it stands: there
+`HampelFilter(window_length=3, n_sigma=3, k=1).transform(z)` with z = (1, 90, 2, 3, 4) returned
+(1, NaN, 2, 3, 4) AND left the caller's series as (1, NaN, 2, 3, 4); the repaired code returns the same
+value and leaves the caller's series alone -/
+theorem original_code_hampel_mutated_caller :
+    hampelInPlaceOriginal ⟨3, 3, 1⟩ [(0, some 1), (1, some 90), (2, some 2), (3, some 3), (4, some 4)] =
+      .ok ([(0, some 1), (1, none), (2, some 2), (3, some 3), (4, some 4)],
+           [(0, some 1), (1, none), (2, some 2), (3, some 3), (4, some 4)]) ∧
+    effectOfOriginal "HampelFilter" "transform" "Series" = .returnsArgMutated ∧
+    hampelInPlace ⟨3, 3, 1⟩ [(0, some 1), (1, some 90), (2, some 2), (3, some 3), (4, some 4)] =
+      .ok ([(0, some 1), (1, none), (2, some 2), (3, some 3), (4, some 4)],
+           [(0, some 1), (1, some 90), (2, some 2), (3, some 3), (4, some 4)]) := by
+  refine ⟨by decide +kernel, by decide, by decide +kernel⟩
+
+/-- an index replacement (what the ORIGINAL adapters' fit did; now a mutation) keeps values and labels -/
 theorem replaces_index_keeps_data {V : Type} (arg : ArgSnap V) (result : V) :
     (callerAfter .replacesIndex arg result).values = arg.values ∧
     (callerAfter .replacesIndex arg result).labels = arg.labels := ⟨rfl, rfl⟩
